@@ -39,6 +39,10 @@ pub fn make_tree(root: &Path, files: &Value) {
     for f in list.iter().rev() {
         let p = root.join(f["path"].as_str().unwrap().trim_start_matches('/'));
         let kind = f["kind"].as_str().unwrap_or("File");
+        if f["group_unnamed"].as_bool().unwrap_or(false) {
+            // an owner of which only the user has a name (needs root; otherwise the file keeps the caller's ids)
+            let _ = std::os::unix::fs::lchown(&p, None, Some(54322));
+        }
         if kind != "Symlink" {
             if let Some(mode) = f["mode"].as_u64() {
                 std::fs::set_permissions(&p, std::fs::Permissions::from_mode(mode as u32)).unwrap();
@@ -111,6 +115,10 @@ pub fn diff_snapshots(a: &[Value], b: &[Value], compare_dir_mtime: bool) -> Vec<
             Some(vb) => {
                 for field in ["kind", "target", "mode", "len", "digest", "mtime", "uid", "gid"] {
                     if field == "mtime" && va["kind"] == "Dir" && !compare_dir_mtime {
+                        continue;
+                    }
+                    if field == "gid" && va["gid"] == 54322 {
+                        // a group without a name cannot be recorded (the index stores names): nothing to compare
                         continue;
                     }
                     if va[field] != vb[field] {
